@@ -184,14 +184,14 @@ func c17Hash(t *rapid.T, ev *evProp, gi *GroupInfo) {
 	if len(m2) == 0 || rapid.Bool().Draw(t, "append") {
 		m2 = append(m2, rapid.Byte().Draw(t, "extra"))
 	} else {
-		m2[rapid.IntRange(0, len(m2)-1).Draw(t, "pos")] ^= byte(rapid.IntRange(1, 255).Draw(t, "xor"))
+		m2[uniformInt(t, 0, len(m2)-1, "pos")] ^= byte(rapid.IntRange(1, 255).Draw(t, "xor"))
 	}
 	if e3 := mustMarshal(t, gi.Hash(m2, dst)); bytes.Equal(enc, e3) {
 		violationOrKnown(t, ev, key("Hash-injective"), "messages %x and %x hash to the same point\n%s", msg, m2, ctx)
 	}
 	if gi.HashDST {
 		d2 := append([]byte(nil), dst...)
-		d2[rapid.IntRange(0, len(d2)-1).Draw(t, "dpos")] ^= byte(rapid.IntRange(1, 255).Draw(t, "dxor"))
+		d2[uniformInt(t, 0, len(d2)-1, "dpos")] ^= byte(rapid.IntRange(1, 255).Draw(t, "dxor"))
 		if e4 := mustMarshal(t, gi.Hash(msg, d2)); bytes.Equal(enc, e4) {
 			violationOrKnown(t, ev, key("Hash-dst"), "domain separation tags %x and %x give the same point\n%s", dst, d2, ctx)
 		}
